@@ -142,7 +142,12 @@ pub fn crash_signature(detail: &str) -> String {
         // drop the column
         let parts: Vec<&str> = loc.split(':').collect();
         if parts.len() >= 2 {
-            return format!("panic@{}:{}", parts[0].trim_start_matches("/repo/"), parts[1]);
+            // repository-relative path, wherever the tree is checked out
+            let file = match parts[0].find("/src/") {
+                Some(i) => &parts[0][i + 1..],
+                None => parts[0].trim_start_matches("/repo/"),
+            };
+            return format!("panic@{}:{}", file, parts[1]);
         }
         return format!("panic@{}", loc);
     }
